@@ -238,6 +238,16 @@ class P:
                     return "(self)"
                 if segs[0] in VARS:
                     return "(var %s)" % VARS[segs[0]]
+            # associated constants of the integer types: `u32::MAX`, `i8::MIN`, `u64::BITS` (bit patterns)
+            if len(segs) >= 2 and segs[-1] in ("MAX", "MIN", "BITS"):
+                mt = re.match(r"^([ui])(8|16|32|64|128)$", segs[-2])
+                if mt and all(x in ("core", "std", "primitive", "") for x in segs[:-2]):
+                    sg, w = mt.group(1) == "i", int(mt.group(2))
+                    if segs[-1] == "BITS":
+                        return "(lit u32 %d)" % w
+                    if segs[-1] == "MAX":
+                        return "(lit %s %d)" % (segs[-2], (1 << (w - 1)) - 1 if sg else (1 << w) - 1)
+                    return "(lit %s %d)" % (segs[-2], (1 << (w - 1)) if sg else 0)
             return "(path %s)" % "::".join(segs)
         raise ParseError("unexpected token %r" % (t,))
 
